@@ -294,7 +294,8 @@ func (r *aRun) evaluate(out *Outcome) {
 		return
 	}
 	if out.Res.CapHit != "" {
-		out.Harness = "run hit cap " + out.Res.CapHit
+		// the run was cut before its final stop: its history is incomplete, so it is counted (cap_hits in the evidence) and not judged
+		out.probe("run_cut_at_"+out.Res.CapHit+"_cap", 1)
 		return
 	}
 	if out.Harness != "" {
